@@ -55,6 +55,12 @@ func main() {
 		fmt.Fprintln(os.Stderr, "check error: a plugin could not be run at all:", f)
 		os.Exit(2)
 	}
+	// a verdict is about one tree: if the sources changed while the check ran (artefacts of two trees may have been compared),
+	// there is no verdict
+	if th, err := plug.TreeHash(plug.Repo()); err != nil || (ctx.Bins != nil && th != ctx.Bins.TreeHash) {
+		fmt.Fprintln(os.Stderr, "check error: the repository changed while the check was running; run it again")
+		os.Exit(2)
+	}
 	os.Exit(run.Finish())
 }
 
